@@ -281,3 +281,16 @@ func VxH_C04_font_size_steps() {
 		}
 	}
 }
+
+// image-orientation angles compute to a quarter turn in [0, 360): -90deg is 270deg.
+func VxH_C04_image_orientation() {
+	root, body := vxDoc()
+	k := vx.Choose("quarter-turns", 13) - 6
+	angle := pr.Fl(float64(k) * 3.141592653589793 / 2)
+	m := matcher{vxRule("body", vxDecl(pr.PImageOrientation, pr.SBoolFloat{Float: angle}))}
+	sf := newStyleFor(&HTML{Root: root}, []sheet{{origin: "author", sheet: CSS{matcher: m}}}, false, nil, nil)
+	got := sf.Get(body, "").GetImageOrientation().Float
+	vx.Reach("computed")
+	want := pr.Fl(((k%4 + 4) % 4) * 90)
+	vx.Assert("quarter-turn-in-0-360", got == want)
+}
